@@ -96,8 +96,10 @@ CLAIMED.update({
             'the generator is called exactly once per iteration up to begin + count.',
             'Trusts loop exploration by typestate repetition; the probe iterator as the model of every input iterator.',
             'DESIGN.md section 6 C15'),
-    'C03': ('other', 'who-may-construct/destroy call-graph rule, self-cleaning loop rule, destroy-before-release and size-ordering typestates over LLVM IR',
-            'Necessary structural conditions of lifetime conservation on every path; segment arithmetic inside tail-split insertion is not decided.',
+    'C03': ('other', 'who-may-construct/destroy call-graph rule, self-cleaning loop rule, destroy-before-release and size-ordering typestates over LLVM IR; '
+                     'exact lifetime ledger on normal paths from inferred element range effects',
+            'Necessary structural conditions of lifetime conservation on every path; on normal-return paths of the public modifiers an exact ledger: '
+            'assign where elements live, construct where none do, destroy exactly what leaves the sequence (R03.7). Once-ness over whole histories is not decided.',
             'Trusts the probe element types as the model of non-trivial elements; may-effect summaries.',
             'DESIGN.md section 6 C03'),
     'C17': ('other', 'corpus well-formedness under every standard and both compilers; cross-standard agreement of per-function static fingerprints; path rules per standard',
